@@ -337,3 +337,13 @@ Theorem C13_poprel_exact_answer_on_overflow_witness :
   /\ run (pr_step repaired (1 # 100) 0) (pop_init repaired (1 # 100) 0) overflow_witness_2 = [Ok false; Ok false].
 Proof. exact poprel_exact_answer_on_overflow_witness. Qed.
 Print Assumptions C13_poprel_exact_answer_on_overflow_witness.
+
+(* KNOWN FINDING answer-intermediate-underflow-below-double-range (corpus/C13/poprel-median-underflow-zero-reference.json):
+   the exact model answers "terminate" at the second evaluation, the reference median 2.47e-324 being non-zero; the
+   double-precision implementation computes the median as 0.0 and answers False.  Not modelled: the double range. *)
+Theorem C13_poprel_exact_answer_on_underflow_witness :
+  Forall nonempty underflow_witness
+  /\ run (pr_step repaired (3 # 4) 0) (pop_init repaired (3 # 4) 0) underflow_witness = [Ok false; Ok true]
+  /\ (exists m, median (somes (values (mk_ev (-(4)) [Some ((1)%Z # 202402253307310618352495346718917307049556649764142118356901358027430339567995346891960383701437124495187077864316811911389808737385793476867013399940738509921517424276566361364466907742093216341239767678472745068562007483424692698618103355649159556340810056512358769552333414615230502532186327508646006263307707741093494784%positive); Some (-(4)); Some 0; Some 1]))) = Ok m /\ ~ m == 0).
+Proof. exact poprel_exact_answer_on_underflow_witness. Qed.
+Print Assumptions C13_poprel_exact_answer_on_underflow_witness.
